@@ -162,13 +162,79 @@ def retBody : RetVal → List Nat
   | .leaf v => match leafText v with | some t => utf8Enc t | none => []
   | .bytes cs => cs.flatMap id
 
+/-! ### `_header_to_bytes`: a DateTime header is an HTTP date (RFC 1123, always GMT) -/
+
+/-- days before 1 January of year `y` (`y ≥ 1`), proleptic Gregorian: `date(y,1,1).toordinal() - 1` -/
+def daysBeforeYear (y : Nat) : Nat := (y - 1) * 365 + (y - 1) / 4 - (y - 1) / 100 + (y - 1) / 400
+
+/-- days before the first of month `m` in year `y` -/
+def daysBeforeMonth (y m : Nat) : Nat :=
+  (if m ≤ 1 then 0 else if m = 2 then 31 else if m = 3 then 59 else if m = 4 then 90
+   else if m = 5 then 120 else if m = 6 then 151 else if m = 7 then 181 else if m = 8 then 212
+   else if m = 9 then 243 else if m = 10 then 273 else if m = 11 then 304 else 334)
+    + (if m > 2 && isLeap y then 1 else 0)
+
+/-- `date.toordinal()` -/
+def dayNumber (d : Date) : Nat := daysBeforeYear d.y + daysBeforeMonth d.y d.m + d.d
+
+def nextDay (d : Date) : Date :=
+  if d.d < daysInMonth d.y d.m then ⟨d.y, d.m, d.d + 1⟩
+  else if d.m < 12 then ⟨d.y, d.m + 1, 1⟩ else ⟨d.y + 1, 1, 1⟩
+
+def prevDay (d : Date) : Date :=
+  if 1 < d.d then ⟨d.y, d.m, d.d - 1⟩
+  else if 1 < d.m then ⟨d.y, d.m - 1, daysInMonth d.y (d.m - 1)⟩ else ⟨d.y - 1, 12, 31⟩
+
+/-- `val.astimezone(pytz.utc)` for an aware value, `val.replace(tzinfo=pytz.utc)` for a naive one
+    (year overflow at 0001-01-01 / 9999-12-31 is outside the model) -/
+def toUtc (x : DateTime) : DateTime :=
+  match x.tz with
+  | none => ⟨x.date, x.time, some 0⟩
+  | some m =>
+    let t : Int := ((x.time.h * 60 + x.time.mi : Nat) : Int) - m
+    if t < 0 then
+      ⟨prevDay x.date, ⟨((t + 1440).toNat) / 60, ((t + 1440).toNat) % 60, x.time.s, x.time.us⟩, some 0⟩
+    else if t ≥ 1440 then
+      ⟨nextDay x.date, ⟨((t - 1440).toNat) / 60, ((t - 1440).toNat) % 60, x.time.s, x.time.us⟩, some 0⟩
+    else ⟨x.date, ⟨t.toNat / 60, t.toNat % 60, x.time.s, x.time.us⟩, some 0⟩
+
+/-- the instant a datetime denotes, in seconds (a naive value is read as GMT, as the header does) -/
+def instantSec (x : DateTime) : Int :=
+  (dayNumber x.date : Int) * 86400 + ((x.time.h * 3600 + x.time.mi * 60 + x.time.s : Nat) : Int)
+    - (x.tz.getD 0) * 60
+
+def weekdayName (n : Nat) : Text :=
+  match n % 7 with
+  | 0 => "Mon".toList | 1 => "Tue".toList | 2 => "Wed".toList | 3 => "Thu".toList
+  | 4 => "Fri".toList | 5 => "Sat".toList | _ => "Sun".toList
+
+def monthName (m : Nat) : Text :=
+  match m with
+  | 1 => "Jan".toList | 2 => "Feb".toList | 3 => "Mar".toList | 4 => "Apr".toList | 5 => "May".toList
+  | 6 => "Jun".toList | 7 => "Jul".toList | 8 => "Aug".toList | 9 => "Sep".toList | 10 => "Oct".toList
+  | 11 => "Nov".toList | _ => "Dec".toList
+
+/-- `"%s, %02d %s %04d %02d:%02d:%02d GMT"` of a GMT datetime; `weekday() = (toordinal() + 6) % 7` -/
+def rfc1123 (u : DateTime) : Text :=
+  weekdayName (dayNumber u.date + 6) ++ ", ".toList ++ pad2 u.date.d ++ ' ' :: (monthName u.date.m ++
+    ' ' :: (pad4 u.date.y ++ ' ' :: (pad2 u.time.h ++ ':' :: (pad2 u.time.mi ++ ':' :: (pad2 u.time.s ++
+    " GMT".toList)))))
+
+/-- `_header_to_bytes(prot, val, DateTime)` -/
+def httpDate (x : DateTime) : Text := rfc1123 (toUtc x)
+
+/-- `_header_to_bytes(prot, val, cls)`: an HTTP date for a DateTime, else `prot.to_unicode` -/
+def hdrText : Leaf → Option Text
+  | .dt x => some (httpDate x)
+  | v => leafText v
+
 /-- `object_to_simple_dict(header_class, out_header, subinst_eater=_header_to_bytes)` for a header
     class of primitive members, then `_gen_http_headers` -/
 def hdrPairs (hdrFields : List Fld) (hdr : Node) : List (Text × Text) :=
   (encode ['.'] hdrFields hdr).flatMap (fun kv =>
     match kv.2 with
-    | .one v => (match leafText v with | some t => [(kv.1, t)] | none => [])
-    | .many vs => vs.filterMap (fun v => (leafText v).map (fun t => (kv.1, t)))
+    | .one v => (match hdrText v with | some t => [(kv.1, t)] | none => [])
+    | .many vs => vs.filterMap (fun v => (hdrText v).map (fun t => (kv.1, t)))
     | .empty => [])
 
 /-- status line is 200 OK; headers in the order they are sent -/
